@@ -137,7 +137,21 @@ func concatMaps(ms reflect.Value) (reflect.Value, error) {
 		vals := rms.MapIndex(key)
 
 		anyVals := vals.Interface().([]any)
-		v, err := toSliceValue(anyVals)
+
+		// a nil value has no dynamic type to concat by: ignore it next to non-nil
+		// values, and keep the key nil if it never held anything else.
+		nonNilVals := make([]any, 0, len(anyVals))
+		for _, anyVal := range anyVals {
+			if anyVal != nil {
+				nonNilVals = append(nonNilVals, anyVal)
+			}
+		}
+		if len(nonNilVals) == 0 {
+			ret.SetMapIndex(key, reflect.Zero(typ.Elem()))
+			continue
+		}
+
+		v, err := toSliceValue(nonNilVals)
 		if err != nil {
 			return reflect.Value{}, err
 		}
